@@ -22,6 +22,13 @@ from .rsitems import AnchorLost, Source, find_top_level, match_delim, mask, sha
 REPO = os.environ.get("VERIF_REPO", "/repo")
 
 
+ADAPTER_RE = re.compile(
+    r"\.\s*(?:iter|into_iter|iter_mut|keys|values|values_mut|chars|bytes|drain|lines|split|char_indices)\s*\([^()]*\)\s*\.\s*"
+    r"(?:map|filter|rev|any|all|zip|enumerate|fold|for_each|find|chain|flat_map|filter_map|skip|take|cloned|copied|sum|count|position|"
+    r"last|max|min|collect|next|peekable|step_by|find_map|take_while|skip_while|max_by_key|min_by_key|partition|unzip|flatten|map_while|"
+    r"rposition|nth|product|inspect|scan|cmp|eq|sorted)\b")
+
+
 class Unsupported(Exception):
     """extraction met a construct no rule covers -> UNDECIDED"""
 
@@ -206,6 +213,15 @@ def annotate_fn(text, item: Fn, log, where):
                 raise AnchorLost(f"{where}: loop #{k} not found for ghost anchor")
             inserts.append((body_open + loops[k][1] + 1, "\n" + gt + "\n"))
             continue
+        ma = re.match(r"@after-loop:(.+)$", anchor)
+        if ma:
+            # after the closing brace of the first loop whose header matches the regex
+            hit = [lp for lp in loops if re.search(ma.group(1), text[body_open + lp[0]:body_open + lp[1]])]
+            if not hit:
+                raise AnchorLost(f"{where}: no loop header matches {ma.group(1)!r} for ghost anchor")
+            close = match_delim(m, body_open + hit[0][1])
+            inserts.append((close + 1, "\n" + gt + "\n"))
+            continue
         optional = anchor.startswith("?")      # "?text": a hint that is simply dropped when its anchor is gone
         if optional:
             anchor = anchor[1:]
@@ -369,6 +385,12 @@ def generate(unit: Unit, root, rules_mod):
             t = "#[verifier::external_body]\n" + t[:bo] + "{ unimplemented!() }"
             meta["rewrites"].append({"where": where, "kind": "contract-only", "old": "<body>", "new": "external_body stub (contract proved in its own unit)", "count": 1})
         else:
+            # Verus type-checks std iterator adapter chains but has no specification for their results: a function that still
+            # contains one after the rules ran would fail its contract for lack of a spec, not because of the code.  That is an
+            # unsupported construct (UNDECIDED), never an alarm.
+            ad = ADAPTER_RE.search(mask(t))
+            if ad:
+                raise Unsupported(f"{where}: std iterator adapter chain `{ad.group(0)}` is covered by no extraction rule (no specification for its result)")
             t, n_loops = annotate_fn(t, it, meta["rewrites"], where)
         wrap = it.as_method_of if it.as_method_of else (it.container if (it.container and " for " not in it.container and not it.drop_self_impl) else None)
         start = cur_line()
